@@ -747,41 +747,87 @@ def pure_bool(ex, e, env, mod):
 
 
 def c04_frozen_migration(name, K):
+    """Integration.<name>: raises ValueError exactly when some population is frozen and has a non-zero migration rate to or from it, and does so before
+    any influx / kernel / constant-driver call (every flag and rate symbolic; the function is executed, so it does not matter how the test is written
+    or into which helper it is factored)."""
     oid = 'C04/Integration.py:%s/frozen-with-migration-rejected' % name
     fn = 'dadi/Integration.py::' + name
 
     @guarded(oid, fn)
     def go():
-        from vf.pyvc import Env
-        mod = ModInfo.load('dadi/Integration.py')
-        node = mod.funcs[name]
-        guard = None
-        for st in node.body:
-            if isinstance(st, ast.If) and any(isinstance(s, ast.Raise) for s in st.body) and 'frozen' in ast.unparse(st.test):
-                guard = st
-                break
-        if guard is None:
-            return [struct(oid, False, 'no top-level guard raising on frozen populations found', fn, finding_key='C04/frozen-migration/%s' % name)]
-        kind = ast.unparse(guard.body[0])
-        ex = Executor()
-        env = Env(None, mod)
         fr = {i: z3.Bool('frozen%d' % i) for i in range(1, K + 1)}
         ms = {(i, j): z3.Real('m%d%d' % (i, j)) for i in range(1, K + 1) for j in range(1, K + 1) if i != j}
+        T, t0 = z3.Reals('T t0')
+        kw = dict(initial_t=t0)
         for i, b in fr.items():
-            env.vars['frozen%d' % i] = b
+            kw['frozen%d' % i] = b
         for (i, j), m in ms.items():
-            env.vars['m%d%d' % (i, j)] = m
-        from vf.pyvc import PathCtx
-        ex.ctx = PathCtx([], [], ex)
-        test = pure_bool(ex, guard.test, env, mod)
+            kw['m%d%d' % (i, j)] = m
+        work = []
+
+        def policy(frf):
+            q = frf.qualname
+            if q == 'ensure_1arg_func':
+                return lambda ex_, f_, a, k_: a[0] if not is_scalar(exact(a[0])) else PyFn(lambda t, _c=a[0]: _c, 'const')
+            if q.startswith('_inject_mutations_') or q.endswith('_const_params') or q == '_compute_dt':
+                def h(ex_, f_, a, k_, _q=q):
+                    work.append(_q)
+                    if _q == '_compute_dt':
+                        d = ex_.ctx.fresh('dt')
+                        ex_.ctx.pc += [d > T - t0, d > 0]
+                        return d
+                    return a[0] if _q.startswith('_inject') else Tm('result')
+                return h
+            return 'abstract'
+
+        def ah(ex_, fref, a, kw_, ctx):
+            if 'implicit_' in vrepr(fref):
+                work.append('kernel')
+                return Tm('swept')
+            return NotImplemented
+        ex = Executor(policy=policy, max_paths=600)
+        ex.abstract_hook = ah
+        ex.module_overrides[('dadi.Integration', 'cuda_enabled')] = False
+        f = ex.func('dadi/Integration.py', name)
+        phi = Tm('phi')
+        phi.attrs['copy'] = PyFn(lambda *a, **k: Tm('phi_copy'), 'copy')
+
+        def thunk(e):
+            del work[:]
+            try:
+                v = e.apply(f.node, None, f.mod, [phi, Tm('xx'), T], dict(kw), name)
+                return ('return', list(work))
+            except PyRaise as pe:
+                return ('raise:%s:%s' % (pe.kind if hasattr(pe, 'kind') else '', str(pe)), list(work))
+        paths = ex.explore(thunk, base_pc=[T > t0, t0 >= 0])
         spec = z3.Or(*[z3.And(fr[k], z3.Or(*[ms[(i, j)] != 0 for (i, j) in ms if k in (i, j)])) for k in fr])
-        out = [struct(oid + '.raises-ValueError', 'ValueError' in kind, kind[:80], fn),
-               prove(oid + '.iff', [], test == spec, func=fn, timeout_ms=20000, finding_key='C04/frozen-migration/%s' % name)]
-        # the guard comes before any integration work: only parameter checks precede it
-        idx = node.body.index(guard)
-        early = all(isinstance(s, (ast.Expr, ast.If, ast.Assign)) for s in node.body[:idx]) and not any(
-            isinstance(c, ast.Call) and getattr(c.func, 'attr', '').startswith(('implicit_', '_inject')) for s in node.body[:idx] for c in ast.walk(s))
-        out.append(struct(oid + '.before-integration', early, 'the guard precedes every integration call', fn))
+        out = []
+        n_raise = n_ok = 0
+        bad = []
+        for p in paths:
+            if p.outcome != 'return':
+                bad.append('unexpected outcome %r' % (p,))
+                continue
+            what, wk = p.value
+            s_ = z3.Solver()
+            s_.set('timeout', 5000)
+            s_.add(T > t0, t0 >= 0, *p.pc)
+            if what.startswith('raise') and 'frozen' in what.lower():
+                n_raise += 1
+                s_.add(z3.Not(spec))
+                if s_.check() != z3.unsat:
+                    bad.append('refused although no frozen population has migration: %s' % (s_.model() if s_.check() == z3.sat else 'undecided'))
+                if wk:
+                    bad.append('work done before the refusal: %s' % wk[:3])
+            elif what.startswith('raise'):
+                continue          # another parameter-domain refusal (negative size / rate ...): not this contract's business
+            else:
+                n_ok += 1
+                s_.add(spec)
+                if s_.check() != z3.unsat:
+                    bad.append('integrates although a frozen population has migration: %s' % (s_.model() if s_.check() == z3.sat else 'undecided'))
+        out.append(struct(oid + '.iff', not bad and n_raise > 0 and n_ok > 0, 'ValueError exactly when a frozen population has a non-zero migration rate, before any work (%d refusing / %d integrating paths)' % (n_raise, n_ok)
+                          if not bad else '; '.join(str(b)[:200] for b in bad[:3]), fn, finding_key='C04/frozen-migration/%s' % name))
         return out
     return go()
 
@@ -845,18 +891,31 @@ def c08_window():
         from vf.pyvc import Env, PathCtx
         mod = ModInfo.load('dadi/Spectrum_mod.py')
         node = mod.funcs['Spectrum._project_one_axis']
-        asg = None
+        # the statements of the per-hits loop that define the window, in whatever form they are written (one tuple assignment or two)
+        loop = None
         for st in ast.walk(node):
-            if isinstance(st, ast.Assign) and isinstance(st.targets[0], ast.Tuple) and [getattr(e, 'id', None) for e in st.targets[0].elts] == ['least', 'most']:
-                asg = st
-        if asg is None:
-            return [struct(oid, False, 'no assignment to (least, most) found', fn, undecided=True)]
+            if isinstance(st, ast.For) and isinstance(st.target, ast.Name) and st.target.id == 'hits':
+                loop = st
+                break
+        stmts = []
+        if loop is not None:
+            for st in loop.body:
+                if isinstance(st, ast.Assign):
+                    tg = st.targets[0]
+                    names = [getattr(e, 'id', None) for e in tg.elts] if isinstance(tg, ast.Tuple) else [getattr(tg, 'id', None)]
+                    if set(names) & {'least', 'most'}:
+                        stmts.append(st)
         ex = Executor()
         ex.ctx = PathCtx([], [], ex)
         env = Env(None, mod)
         n, fr, hits, k = z3.Ints('n proj_from hits k')
         env.vars.update(n=n, proj_from=fr, hits=hits)
-        ex.assign(asg.targets[0], ex.eval(asg.value, env, mod), env, mod)
+        for st in stmts:
+            ex.assign(st.targets[0], ex.eval(st.value, env, mod), env, mod)
+        if 'least' not in env.vars or 'most' not in env.vars:
+            # written in a form this all-sizes lemma cannot be read off from: nothing is claimed here; the window is still checked entry by entry
+            # on concrete sizes by c08_project_one_axis and exhaustively for n <= 40 by the bounded driver
+            return []
         least, most = env.vars['least'], env.vars['most']
         from vf.pyvc import to_z3
         lz, mz = to_z3(least), to_z3(most)
@@ -868,12 +927,7 @@ def c08_window():
         out = [prove(oid + '.iff', hy, z3.And(to_real(least) <= z3.ToReal(k), z3.ToReal(k) <= to_real(most)) == support, func=fn, timeout_ms=20000,
                      finding_key='C08/_project_one_axis/window'),
                prove(oid + '.nonempty', hy, to_real(least) <= to_real(most), func=fn, timeout_ms=20000)]
-        # slices
-        src = ast.unparse(node)
-        ok = src.count('slice(least, most + 1)') >= 2 and 'to_slice[axis] = slice(least, most + 1)' in src and 'proj_slice[axis] = slice(least, most + 1)' in src
-        out.append(struct(oid + '.slices', ok, 'target slice and weight slice are both slice(least, most+1)', fn, finding_key='C08/_project_one_axis/slices'))
-        ok = 'from_slice[axis] = slice(hits, hits + 1)' in src and '_cached_projection(n, proj_from, hits)' in src
-        out.append(struct(oid + '.source-slice', ok, 'source slice is hits:hits+1 and the weights are _cached_projection(n, proj_from, hits)', fn))
+        # (which slices the window is applied to is checked semantically, entry by entry, by c08_project_one_axis)
         return out
     return go()
 
@@ -1800,6 +1854,29 @@ def c13_count_data_dict():
             if got is None:
                 out.append(struct('%s.path%d' % (oid, i), False, 'result is not a dict: %s' % vrepr(p.value), fn))
                 continue
+
+            def settle(v):
+                # a key component that is still a formula (e.g. the polarisation flag computed by a helper) has one value on this path
+                if isinstance(v, tuple):
+                    return tuple(settle(c) for c in v)
+                if isinstance(v, z3.ExprRef) and z3.is_bool(v):
+                    sv = z3.Solver()
+                    sv.set('timeout', 3000)
+                    sv.add(*(pre + list(p.pc)))
+                    sv.push()
+                    sv.add(z3.Not(v))
+                    if sv.check() == z3.unsat:
+                        return True
+                    sv.pop()
+                    sv.add(v)
+                    if sv.check() == z3.unsat:
+                        return False
+                return v
+            g2 = {}
+            for k_, c_ in got.items():
+                k2 = settle(k_)
+                g2[k2] = g2.get(k2, 0) + c_
+            got = g2
             fixed = {((1, 8), (1, 4), True): 1}      # s4: calls (1,0),(4,4), outgroup = allele 2 so derived = allele-1 calls (s2 skipped)
             cases = []
             for pol_, der in ((True, d2), (True, d1), (False, d2)):
@@ -4506,3 +4583,128 @@ def c16_export_names():
             out.append(struct('%s.event%d' % (oid, k), bool(exp[k](ids[k])), '%s (got %s)' % (what[k], ids[k]), fn))
         return out
     return go()
+
+
+def c20_integrator_alias(K, const_params=False):
+    """Integration.{one..five}_pops never let the caller's density or grid reach code that writes or assumes a layout, and never hand the caller's
+    density back: on every path (T < initial_t refused, T == initial_t, T > initial_t; all parameters functions of time, or all constants)
+      * every callee that updates its density argument in place (the influx functions, the compiled kernels, the constant-parameter drivers) receives
+        an object derived from phi.copy(), never the argument itself;
+      * every grid those callees receive is numpy.ascontiguousarray(xx, ...) of the argument, never the argument itself;
+      * the returned object is not the caller's array.
+    (Semantic version of the earlier syntactic check: it follows the objects, so it does not care where in the function - or in which helper - the copy is made.)"""
+    name = {1: 'one_pop', 2: 'two_pops', 3: 'three_pops', 4: 'four_pops', 5: 'five_pops'}[K]
+    oid = 'C20/Integration.py:%s/%s' % (name, 'alias.const' if const_params else 'alias')
+    fn = 'dadi/Integration.py::' + name
+
+    @guarded(oid, fn)
+    def go():
+        sfx = (lambda k: '') if K == 1 else (lambda k: str(k))
+        T, t0 = z3.Reals('T t0')
+        kw = {}
+
+        def tf(nm):
+            if const_params:
+                return z3.Real(nm)
+            f_ = uf(nm + '_of_t')
+            return PyFn(lambda t, _f=f_: _f(to_real(t)), nm + '_f')
+        for k in range(1, K + 1):
+            for base in ('nu', 'gamma', 'h'):
+                kw[base + sfx(k)] = tf(base + sfx(k))
+            for j in range(1, K + 1):
+                if j != k:
+                    kw['m%d%d' % (k, j)] = tf('m%d%d' % (k, j))
+        kw['theta0'] = tf('theta0')
+        kw['initial_t'] = t0
+        writers = []
+
+        def policy(fr):
+            q = fr.qualname
+            if q == 'ensure_1arg_func':
+                return lambda ex_, f_, a, k_: a[0] if not is_scalar(exact(a[0])) else PyFn(lambda t, _c=a[0]: _c, 'const')
+            if q == '_compute_dt':
+                def cdt(ex_, f_, a, k_):
+                    d = ex_.ctx.fresh('dt')
+                    ex_.ctx.pc += [d > T - t0, d > 0]
+                    return d
+                return cdt
+            if q.startswith('_inject_mutations_') or q.endswith('_const_params'):
+                def wr(ex_, f_, a, k_, _q=q):
+                    writers.append((_q, list(a), dict(k_)))
+                    return a[0] if _q.startswith('_inject') else Tm('result_of_' + _q)
+                return wr
+            return 'abstract'
+
+        def ah(ex_, fref, a, kw_, ctx):
+            nm = vrepr(fref)
+            if 'implicit_' in nm:
+                writers.append((nm, list(a), dict(kw_)))
+                return Tm('swept')
+            return NotImplemented
+        phi, xx = Tm('phi_in'), Tm('xx_in')
+        copies = []
+        def _copy(*a, **k):
+            copies.append(1)
+            order = a[0] if a else k.get('order', 'C')
+            # ndarray.copy() defaults to order='C': a fresh C-contiguous array; any other order keeps or imposes another layout
+            return Tm('phi_copy%d' % len(copies)) if order == 'C' else Tm('phi_copy_order_%s' % order, phi)
+        phi.attrs['copy'] = PyFn(_copy, 'phi.copy')
+        ex = Executor(policy=policy, max_paths=64)
+        ex.abstract_hook = ah
+        ex.module_overrides[('dadi.Integration', 'cuda_enabled')] = False
+        f = ex.func('dadi/Integration.py', name)
+        results = []
+
+        def thunk(e):
+            del writers[:]
+            v = e.apply(f.node, None, f.mod, [phi, xx, T], dict(kw), name)
+            return v, list(writers)
+        paths = ex.explore(thunk, base_pc=[t0 >= 0] + ([z3.Real('nu' + sfx(k)) > 0 for k in range(1, K + 1)] if const_params else []))
+        out = []
+        rets = [p for p in paths if p.outcome == 'return']
+        if not rets:
+            return [struct(oid, False, 'no returning path: %r' % paths[:2], fn, undecided=True)]
+
+        def mentions(t, target):
+            if t is target:
+                return True
+            if isinstance(t, Tm):
+                return any(mentions(a, target) for a in t.args)
+            if isinstance(t, (VList,)):
+                return any(mentions(a, target) for a in t.items)
+            if isinstance(t, (tuple, list)):
+                return any(mentions(a, target) for a in t)
+            return False
+        bad_phi, bad_xx, bad_ret, nwrites = [], [], [], 0
+        for p in rets:
+            v, ws = p.value
+            if v is phi:
+                bad_ret.append(str(p.pc)[:120])
+            for (q, a, k_) in ws:
+                nwrites += 1
+                if a and (a[0] is phi or mentions(a[0], phi)):
+                    # the caller's array itself, or something built from it other than phi.copy() (numpy.array(phi) keeps a Fortran / transposed
+                    # layout, ascontiguousarray(phi) may return phi itself): not the fresh C-contiguous copy the kernels need
+                    bad_phi.append('%s <- %s' % (q, vrepr(a[0])[:50]))
+                for x in list(a[1:]) + list(k_.values()):
+                    if x is xx:
+                        bad_xx.append(q)
+                    elif isinstance(x, Tm) and mentions(x, xx) and 'ascontiguousarray' not in vrepr(x) and 'diff' not in x.op:
+                        bad_xx.append(q + ' (derived without ascontiguousarray: %s)' % vrepr(x)[:60])
+        out.append(struct(oid + '.writers-get-a-copy', not bad_phi and nwrites > 0, 'every in-place callee works on a copy (%d calls on %d paths)' % (nwrites, len(rets)) if not bad_phi else 'the caller\'s array is handed to %s' % sorted(set(bad_phi)), fn,
+                          finding_key='C20/%s/works-on-callers-array' % name))
+        out.append(struct(oid + '.contiguous-grid', not bad_xx and nwrites > 0, 'every grid handed on is ascontiguousarray(xx)' if not bad_xx else 'the caller\'s grid object reaches %s' % sorted(set(bad_xx))[:4], fn,
+                          finding_key='C20/%s/noncontiguous-grid' % name))
+        out.append(struct(oid + '.returns-fresh', not bad_ret, 'no path returns the caller\'s array' if not bad_ret else 'the caller\'s array is returned when %s' % bad_ret[:2], fn,
+                          finding_key='C20/%s/returns-callers-array' % name))
+        return out
+    return go()
+
+
+def c20_integrator_frame_semantic():
+    out = []
+    for K in (1, 2, 3, 4, 5):
+        out += c20_integrator_alias(K, False)
+        if K <= 3:
+            out += c20_integrator_alias(K, True)
+    return out
